@@ -474,3 +474,73 @@ def snapshot_provenance(run, model, rule):
         if not adds and bad is None:
             bad = "the names seen so far are not recorded"
     run.check(bad is None, rule, fi.qual, "walks inherited + own snapshots, skips only identical objects, raises ValueError on an equal name", bad or "", fi.loc())
+
+
+def shared_member_rule(run, model, rule):
+    """A member whose function object is a base's own (``f = Base.f``, ``@Base.prop.getter``) is inherited as it is:
+    the merge must not run for it, because its checker is shared with the base and the merged lists would be stored
+    on -- and duplicate the contracts of -- the base class."""
+    for kind, nf in namespace_fns(model).items():
+        flow = nf.flow
+        run.saw(flow)
+        cfg = flow.cfg
+        gg = GuardGraph(flow)
+        store_ids = set(n.id for lst in nf.stores.values() for n, _, _ in lst)
+        # identity tests between the namespace's function and a base's member
+        guards = []
+        for n in cfg.nodes:
+            if n.kind != "test" or n.ast is None:
+                continue
+            ident = False
+            for sub in ast.walk(n.ast):
+                if isinstance(sub, ast.Compare) and len(sub.ops) == 1:
+                    txt = src_of(sub)
+                    mentions_base = "base" in txt or nf.bases_p in txt
+                    if isinstance(sub.ops[0], (ast.Is, ast.IsNot)) and mentions_base and not (isinstance(sub.comparators[0], ast.Constant) and sub.comparators[0].value is None):
+                        ident = True
+                    if isinstance(sub.ops[0], (ast.In, ast.NotIn)) and mentions_base and isinstance(sub.comparators[0], (ast.Tuple, ast.List)) and all(isinstance(x, ast.Attribute) and x.attr in ("fget", "fset", "fdel") for x in sub.comparators[0].elts):
+                        ident = True
+            if ident:
+                guards.append(n)
+        ok = False
+        heads = set(h.id for h in nf.all_loops)
+        for g in guards:
+            for k, tgt in g.succ:
+                if k != "T":
+                    continue
+                seen = gg.reach([tgt], None, heads, follow_exc=False)
+                if not (seen & store_ids):
+                    ok = True
+        run.check(ok, rule, nf.fi.qual, "a member that is the very function object of a base is left as it is (identity test bypasses the merge)", "the merge also runs for a member whose function object is a base's own (`f = Base.f`, or the untouched accessors of `@Base.prop.getter`): its checker is shared with the base, so the merged lists are stored on the base's checker and every contract of the base is duplicated there", nf.fi.loc())
+
+
+def namespace_rebind_rule(run, model, rule):
+    """The namespace entry is replaced only when a checker had to be created: a checker found further down the
+    decorator stack stays where it is, under the decorators stacked above it."""
+    nf = namespace_fns(model)["function"]
+    flow = nf.flow
+    run.saw(flow)
+    gg = GuardGraph(flow)
+    stores = []
+    for n in flow.cfg.nodes:
+        if n.kind == "stmt" and isinstance(n.ast, ast.Assign):
+            for tg in n.ast.targets:
+                if isinstance(tg, ast.Subscript) and flow.term(tg.value, n) == ("param", nf.ns_p) and flow.term(tg.slice, n) == ("param", nf.key_p):
+                    stores.append(n)
+    found = None
+    for n in flow.cfg.nodes:
+        for call, c, a in calls_in(n):
+            t = flow.term(call, n)
+            if t[0] == "call" and fi_of_term(model, t[1]) is nf.finder and not any(s_ == ("elem", ("param", nf.bases_p)) for s_ in subterms(t)):
+                found = t
+    bad = None
+    if not stores:
+        bad = "a newly created checker is never put into the namespace"
+    elif found is None:
+        bad = "the decorator stack of the namespace's function is not searched for a checker"
+    else:
+        for st in stores:
+            if not gg.necessary([flow.cfg.entry], [st.id], (found, False)):
+                bad = "the namespace entry is re-bound although a checker was found on the function's decorator stack: decorators stacked above the contracts (e.g. a functools.wraps decorator) are dropped from the class"
+            val = flow.term(st.ast.value, st)
+    run.check(bad is None, rule, nf.fi.qual, "namespace[key] is replaced only if no checker was found (then by the new checker, re-wrapped as static/class method where needed)", bad or "", nf.fi.loc(stores[0]) if stores else nf.fi.loc(), None, first_line(stores[0].stmt) if stores else None)
